@@ -349,8 +349,9 @@ def table_capacity(table, a):
 
 def random_tree_mol(rng, n, elements=None, p_ring=0.15, p_double=0.2, p_triple=0.05,
                     p_bracket=0.15, p_chiral=0.15, p_stereo=0.1, ncomp=1, table=None,
-                    chiral_elements=("C", "N", "P", "S", "Si", "B")):
-    """Valence-respecting random molecule (tree + ring closures)."""
+                    chiral_elements=("C", "N", "P", "S", "Si", "B"), p_hatom=0.03):
+    """Valence-respecting random molecule (tree + ring closures).  p_hatom: hydrogens written as atoms of their own
+    ([H], [2H], [3H]) on atoms with room left."""
     elements = elements or ["C"] * 8 + ["N"] * 3 + ["O"] * 2 + ["S", "P", "B", "F", "Cl", "Br", "I"]
     m = GMol()
     cap = {}
@@ -374,7 +375,7 @@ def random_tree_mol(rng, n, elements=None, p_ring=0.15, p_double=0.2, p_triple=0
                 if rng.random() < 0.4:
                     a.charge = rng.choice([1, -1, 1, -1, 1, -1, 2, 2, -2, 3, -3, 4])
                 if rng.random() < 0.2:
-                    a.isotope = rng.choice([2, 13, 14, 15, 18, 0, 125])
+                    a.isotope = rng.choice([2, 13, 14, 15, 18, 0, 125, 300, 999])
             c = capof(a)
             if c < (0 if i == 0 else 1):
                 a = GAtom("C")
@@ -412,6 +413,17 @@ def random_tree_mol(rng, n, elements=None, p_ring=0.15, p_double=0.2, p_triple=0
             m.add_bond(a, b, o)
             val[a] += o
             val[b] += o
+    if p_hatom:
+        for j in range(len(m.atoms)):
+            while cap[j] - val[j] >= 1 and rng.random() < p_hatom:
+                h = GAtom("H")
+                h.isotope = rng.choice([None, None, None, 2, 3])
+                if (table_capacity(table, h) if table is not None else 1) < 1:
+                    break
+                k = m.add_atom(h)
+                cap[k], val[k] = 1, 1
+                m.add_bond(j, k, 1)
+                val[j] += 1
     adj = m.adj()
     for i, a in enumerate(m.atoms):
         nn = len(adj[i]) + (1 if (a.hcount or 0) == 1 else 0)
